@@ -19,6 +19,8 @@ import os
 import pickle
 import random
 import re
+import subprocess
+import sys
 import threading
 import time
 
@@ -597,6 +599,8 @@ def cover(graph, adapter, targets, maxwalk=14):
     order = sorted(todo)
     st = {"walks": 0, "steps": 0, "covered": 0, "nontrivial": 0, "blocked": 0, "divergent": 0}
     divs = []
+    valid = set()
+    nbdiv = set()
     oi = 0
     while oi < len(order):
         eid = order[oi]
@@ -628,8 +632,13 @@ def cover(graph, adapter, targets, maxwalk=14):
         tainted = set()
         for k, s in enumerate(walk):
             adapter.apply(w, s["act"])
-            got = adapter.project(w)
             st["steps"] += 1
+            if s["_id"] in valid:
+                continue  # an edge of the path that was already executed and compared under this adapter
+            if s["_id"] in nbdiv:
+                tainted.update(NONBLOCKING)
+                continue
+            got = adapter.project(w)
             exp = s["obs"]
             d = rp.diff({x: v for x, v in exp.items() if x not in NONBLOCKING}, got)
             d2 = None
@@ -649,6 +658,9 @@ def cover(graph, adapter, targets, maxwalk=14):
                         pre, tree = graph.bfs(bad)
                     break
                 tainted.update(NONBLOCKING)
+                nbdiv.add(s["_id"])
+            else:
+                valid.add(s["_id"])
             if s["_id"] in todo:
                 todo.discard(s["_id"])
                 st["covered"] += 1
@@ -732,6 +744,10 @@ def run(rep, tier, seed):
                 for k, v in MC.items()}
 
     mc = _Bg(chain)
+    # 3. code -> spec runs in a child process next to the edge replay (both are CPU-bound python)
+    outp = os.path.join(common.workdir("c16tr"), "traces.json")
+    child = subprocess.Popen([sys.executable, "-m", "props.c16", "--traces", tier, str(seed), outp], cwd=common.ROOT,
+                             stdout=subprocess.DEVNULL, stderr=subprocess.DEVNULL)
     adapters = {p: MiniAdapter(p) for p in PROFILES}
     timing["setup"] = round(time.time() - t0, 1)
     keys_seen = {}
@@ -773,8 +789,14 @@ def run(rep, tier, seed):
 
     # 3. code -> spec ------------------------------------------------------------------------------------
     t1 = time.time()
-    run_traces(rep, thorough, seed)
-    timing["traces"] = round(time.time() - t1, 1)
+    if child.wait() != 0 or not os.path.exists(outp):
+        raise tlc.MachineryError("trace recorder process failed (rc=%s)" % child.returncode)
+    with open(outp) as f:
+        out = json.load(f)
+    if "machinery" in out:
+        raise tlc.MachineryError(out["machinery"])
+    traces_report(rep, out)
+    timing["wait-traces"] = round(time.time() - t1, 1)
 
     # 1'. collect the exhaustive runs
     t1 = time.time()
@@ -1127,29 +1149,36 @@ class ReactorRecorder:
         return {"id": tid, "init": init, "ev": ev}
 
 
-def run_traces(rep, thorough, seed, recorder=None, ntraces=None):
+def traces_collect(thorough, seed, recorder=None, ntraces=None):
+    """record + validate; returns plain data (so that it can run in a child process next to the edge replay)"""
     rec = recorder or ReactorRecorder()
     rng = random.Random(seed * 7919 + 16)
-    nt = ntraces or (400 if thorough else 60)
+    nt = ntraces or (400 if thorough else 40)
     nev = 60 if thorough else 40
+    t0 = time.time()
     traces = [rec.record("t%d" % t, nev, rng) for t in range(nt)]
+    t_rec = time.time() - t0
     bad, stats = tracecheck.validate("RetainState_trace", "RetainState_trace.cfg", MODDIR, traces, timeout=3000)
-    rep.add_tlc("trace-validation", stats["tlc"])
+    res = stats["tlc"]
     nevents = sum(len(t["ev"]) for t in traces)
-    rep.add_traces("reactor-storms", len(traces), nevents,
-                   "seeded random histories on the smallest test reactor (12 objects + copies): nested scopes on any "
-                   "object with random keep-sets, assignments of scalars/arrays/dicts/None/strings to parameters of every "
-                   "family, setNumberDensity(ies), setTemperature, caches, grid pitch / bounds, deep copies, pickles, "
-                   "read-only; every event with the complete projected post-state must be a step of RetainState")
+    out = {"ntraces": len(traces), "nevents": nevents, "accepted": stats["accepted"], "rejected": len(bad),
+           "tlc": {"summary": res.summary(), "distinct": res.distinct, "generated": res.generated},
+           "violations": [], "keys": {}, "record_s": round(t_rec, 1), "sample": None}
     if traces and traces[0]["ev"]:
-        rep.sample({"kind": "trace", "id": traces[0]["id"], "events": [
-            {"a": e["a"], "post": {k: e["post"][k] for k in ("depth", "err", "sameSerialAs")}} for e in traces[0]["ev"][:3]]})
-    keys = {}
+        out["sample"] = {"kind": "trace", "id": traces[0]["id"], "events": [
+            {"a": e["a"], "post": {k: e["post"][k] for k in ("depth", "err", "sameSerialAs")}} for e in traces[0]["ev"][:3]]}
+    keys = out["keys"]
     validated = nevents
     byid = {t["id"]: t for t in traces}
+
+    def viol(key, what, payload):
+        keys[key] = keys.get(key, 0) + 1
+        if keys[key] == 1:
+            out["violations"].append({"key": key, "what": what, "payload": payload})
+
     # disagreements about serial numbers do not end a history (no action reads them): first one per history
     first_serial = {}
-    for p in stats["tlc"].prints:
+    for p in res.prints:
         if isinstance(p, dict) and "serial" in p:
             if p["serial"] not in first_serial or p["at"] < first_serial[p["serial"]]["at"]:
                 first_serial[p["serial"]] = p
@@ -1160,15 +1189,14 @@ def run_traces(rep, thorough, seed, recorder=None, ntraces=None):
         d = rp.diff({"sameSerialAs": p["expected"]["sameSerialAs"]}, e["post"])
         beh = [x["a"] for x in tr["ev"][: k + 1]]
         key = make_key(e["a"], d or ".sameSerialAs", tr["init"]["parent"], beh, None, False, "", "")
-        keys[key] = keys.get(key, 0) + 1
-        rep.violation(key, "recorded history on the reactor is not a behaviour of RetainState at event %d %s: %s" % (
+        viol(key, "recorded history on the reactor is not a behaviour of RetainState at event %d %s: %s" % (
             k + 1, json.dumps(e["a"]), d), {"direction": "trace", "matched": k, "first_difference": d, "behaviour": beh,
                                             "expected": p["expected"], "observed": e["post"], "trace_id": tidn})
     for b in bad:
         if "invariant" in b:
-            rep.violation("trace:invariant:" + b["invariant"],
-                          "a property of RetainState failed on a state reached by a recorded history: " + b["invariant"],
-                          {"direction": "trace", "tlc": b["tlc"]})
+            viol("trace:invariant:" + b["invariant"],
+                 "a property of RetainState failed on a state reached by a recorded history: " + b["invariant"],
+                 {"direction": "tlc", "trace": b["tlc"]})
             continue
         tr = b["trace"]
         k = b["matched"]
@@ -1191,12 +1219,50 @@ def run_traces(rep, thorough, seed, recorder=None, ntraces=None):
             key = "%s:not-a-step" % e["a"]["n"]
             what = "recorded event %d %s is not enabled in RetainState after the first %d events" % (k + 1, json.dumps(e["a"]), k)
             payload = {"direction": "trace", "matched": k, "behaviour": beh, "observed": e["post"], "trace_id": tr["id"]}
-        keys[key] = keys.get(key, 0) + 1
-        rep.violation(key, what, payload)
+        viol(key, what, payload)
+    out["validated"] = validated
+    return out
+
+
+class _TlcShim:
+    def __init__(self, d):
+        self.d, self.distinct, self.generated = d["summary"], d["distinct"], d["generated"]
+
+    def summary(self):
+        return dict(self.d)
+
+
+def traces_report(rep, out):
+    rep.add_tlc("trace-validation", _TlcShim(out["tlc"]))
+    rep.add_traces("reactor-storms", out["ntraces"], out["nevents"],
+                   "seeded random histories on the smallest test reactor (12 objects + copies): nested scopes on any "
+                   "object with random keep-sets, assignments of scalars/arrays/dicts/None/strings to parameters of every "
+                   "family, setNumberDensity(ies), setTemperature, caches, grid pitch / bounds, deep copies, pickles, "
+                   "read-only; every event with the complete projected post-state must be a step of RetainState")
+    if out["sample"]:
+        rep.sample(out["sample"])
+    for v in out["violations"]:
+        rep.violation(v["key"], v["what"], v["payload"])
     rep.extra.setdefault("traces", {})["reactor-storms"].update(
-        {"accepted": stats["accepted"], "rejected": len(bad), "events_validated_before_first_rejection": validated,
-         "rejection_keys": keys})
-    return traces, bad
+        {"accepted": out["accepted"], "rejected": out["rejected"],
+         "events_validated_before_first_rejection": out["validated"], "rejection_keys": out["keys"],
+         "record_s": out["record_s"]})
+    if out["ntraces"] == 0 or out["nevents"] == 0:
+        raise tlc.MachineryError("vacuous: no trace events were recorded")
+
+
+def run_traces(rep, thorough, seed, recorder=None, ntraces=None):
+    traces_report(rep, traces_collect(thorough, seed, recorder, ntraces))
+
+
+def _child_traces(argv):
+    tier, seed, outp = argv[0], int(argv[1]), argv[2]
+    try:
+        out = traces_collect(tier == "thorough", seed)
+    except tlc.MachineryError as ex:
+        out = {"machinery": str(ex)}
+    with open(outp, "w") as f:
+        json.dump(out, f, default=str)
 
 
 # ------------------------------------------------------------------------------------------------------------
@@ -1243,3 +1309,8 @@ def replay(payload):
         return 0
     print(payload.get("trace", "")[:20000] if direction == "tlc" else json.dumps(payload, indent=1, default=str)[:20000])
     return 0
+
+
+if __name__ == "__main__":
+    if len(sys.argv) >= 5 and sys.argv[1] == "--traces":
+        _child_traces(sys.argv[2:])
